@@ -1054,7 +1054,7 @@ class Lower:
     def ctor_for(self, recq, want):
         for cname, info in self.fn_info.items():
             d = info['decl']
-            if d.get('kind') == 'CXXConstructorDecl' and self.qt(d) == want and '::'.join(info['q'].split('::')[:-1]) == recq:
+            if d.get('kind') == 'CXXConstructorDecl' and self.qt(d) == want and '::'.join(info['q'].split('::')[:-1]) in (recq, recq.split('<')[0]):
                 return cname, d
         raise Abort('constructor %s %s not lowered (in %s)' % (recq, want, self.cur_fn))
 
@@ -1158,6 +1158,13 @@ class Lower:
             self.loop_depth.pop()
             self.loop_id_stack.pop()
             return ln + pad + 'while (%s)\n' % c + lc + b
+        if k == 'DoStmt' and self.inner(n)[1].get('kind') == 'CXXBoolLiteralExpr' and not self.inner(n)[1].get('value'):
+            # do { ... } while (false): a block with early exits, not a loop (no loop contract, no ordinal)
+            ins = self.inner(n)
+            self.loop_depth.append(len(self.scopes))
+            b = self.blk(ins[0], ind)
+            self.loop_depth.pop()
+            return ln + pad + 'do\n' + b + pad + 'while (0);\n'
         if k == 'DoStmt':
             ins = self.inner(n)
             lc = self.loopc(ind)
@@ -1372,7 +1379,11 @@ class Lower:
         ct = self.ctype(v['type'])
         declt = '' if hoist else ct + ' '
         if hoist:
-            self.hoisted.append('%s %s;' % (ct, nm))
+            hd = '%s %s;' % (ct, nm)
+            if hd not in self.hoisted:
+                if any(h.split()[-1] == nm + ';' for h in self.hoisted):
+                    raise Abort('hoisting: two locals named %s with different types in %s' % (nm, self.cur_fn))
+                self.hoisted.append(hd)       # locals of sibling scopes with the same name and type share the hoisted variable
             self.hoisted_names.append((nm, tuple(self.loop_id_stack)))
         if core is not None and core.get('kind') in ('CXXConstructExpr', 'CXXTemporaryObjectExpr'):
             rec = norm_type(core['type'].get('desugaredQualType') or core['type']['qualType'])
